@@ -266,6 +266,19 @@ theorem readahead_bytes_refine_flat (F : File) (hwf : WF F) (r0 : Reader) (h0 : 
   have := over_history_eq_sequential hwf h0 ops rd script hn outs t h
   exact ⟨this, by rw [this]; exact read_refines_flat F hwf r0 h0 ops hv⟩
 
+open Hts.Model Hts.Model.Bgzf Hts.Model.ReadAhead Hts.Spec.Flat in
+/-- **Such executions exist and run to the end.**  For every rd ≥ 2: with the calls the history makes as the
+consumer's script (`Prog.calls`; followed by any further operations, e.g. `close`), the history runs over the
+protocol to its last operation — every call returns (dead-lock freedom and the global measure; no fairness
+assumption) — and by `readahead_bytes_refine_flat` whatever such an execution returns is the sequential
+reader's answer. -/
+theorem readahead_bytes_execution_exists (F : File) (hwf : WF F) (r0 : Reader) (ops : List Spec.Flat.Op)
+    (rd : Nat) (hrd : 2 ≤ rd) (tl : List ReadAhead.Op) (htl : ReadAhead.Op.nexts ∉ tl) :
+    ∃ outs t,
+      Over ⟨rd, chainOf F, (gRun r0 ops).calls F ⟨some 0, chainOf F 0⟩ ++ tl, false⟩ F (gRun r0 ops)
+        (ReadAhead.init ⟨rd, chainOf F, (gRun r0 ops).calls F ⟨some 0, chainOf F 0⟩ ++ tl, false⟩) outs t :=
+  over_exists (cfg_ok hwf rd hrd _ false) rfl rfl (gRun r0 ops) _ tl .init rfl rfl htl
+
 open Hts.Model Hts.Model.ReadAhead in
 /-- After `Close` has returned the worker goroutine has returned. -/
 theorem reader_no_leak (cfg : Cfg) (hc : cfg.OK) (s : ReadAhead.State) (h : Reachable cfg s) (hcl : s.cons = .closed) :
